@@ -193,7 +193,47 @@ example : (∀ x ∈ [1, 2, 3], x ≤ 255) ∧ [1, 2, 3].Nodup ∧ Valid Bls.p 0
     compute_degree
   exact lt_of_le_of_lt this (by norm_num)
 
+/-! ### the duplicate-signer test of the oracle (seeded change C06-l: a bitmap that confuses signers 64 apart) -/
+
+section dup
+open Driver.Threshold
+
+/-- **distinct signers are never reported as duplicates** (and a repeated signer always is, unless an earlier entry
+    is refused first): on a list of well-formed entries with pairwise distinct signers in range, the per-entry loop of
+    the reconstruction oracle raises nothing, whatever the group size and the positions of the signers -/
+theorem loop_none_of_nodup (n t : Int) : ∀ (pairs : List (Int × Bytes)) (i : Nat) (seen : List Int),
+    (∀ p ∈ pairs, p.2.length = 48 ∧ 0 ≤ p.1 ∧ p.1 < n) → (pairs.map (·.1)).Nodup →
+    (∀ p ∈ pairs, p.1 ∉ seen) → reconstruct.loop n t i seen pairs = none := by
+  intro pairs
+  induction pairs with
+  | nil => intro i seen _ _ _; simp [reconstruct.loop]
+  | cons p rest ih =>
+    intro i seen hw hnd hs
+    obtain ⟨s, b⟩ := p
+    have hp := hw (s, b) (by simp)
+    simp only [List.map_cons, List.nodup_cons] at hnd
+    unfold reconstruct.loop
+    rw [if_neg (by simp [hp.1]), if_neg (by omega), if_neg (by simpa using hs (s, b) (by simp))]
+    apply ih
+    · intro q hq; exact hw q (List.mem_cons_of_mem _ hq)
+    · exact hnd.2
+    · intro q hq hmem
+      rcases List.mem_cons.mp hmem with h | h
+      · exact hnd.1 (h ▸ List.mem_map_of_mem hq)
+      · exact hs q (List.mem_cons_of_mem _ hq) h
+
+/-- a signer that occurs twice among well-formed entries is reported as a duplicate -/
+theorem loop_dup (n t : Int) (i : Nat) (seen : List Int) (s : Int) (b : Bytes) (rest : List (Int × Bytes))
+    (hb : b.length = 48) (hr : 0 ≤ s ∧ s < n) (hs : s ∈ seen) :
+    reconstruct.loop n t i seen ((s, b) :: rest) = some "err DuplicatedSigner" := by
+  unfold reconstruct.loop
+  rw [if_neg (by simp [hb]), if_neg (by omega), if_pos (by simpa using hs)]
+
+end dup
+
 end Props.C06Driver
 
 #print axioms Props.C06Driver.driver_interpolate_reconstructs_nodup
 #print axioms Props.C06Driver.driver_interpolate_reconstructs
+#print axioms Props.C06Driver.loop_none_of_nodup
+#print axioms Props.C06Driver.loop_dup
